@@ -5,6 +5,7 @@ import (
 	"fmt"
 
 	"go.miragespace.co/specter/spec/chord"
+	"go.miragespace.co/specter/util/verifhook"
 
 	"github.com/avast/retry-go/v4"
 	"go.uber.org/zap"
@@ -45,7 +46,9 @@ func (n *LocalNode) Join(peer chord.VNode) error {
 		return fmt.Errorf("node is not Inactive")
 	}
 
+	verifhook.At("join:start", n.ID())
 	predecessor, successors, err := n.executeJoin(peer)
+	verifhook.At("join:answered", n.ID())
 	if err != nil {
 		n.state.Set(chord.Inactive)
 		return err
@@ -59,15 +62,19 @@ func (n *LocalNode) Join(peer chord.VNode) error {
 	n.predecessorMu.Lock()
 	n.predecessor = predecessor
 	n.predecessorMu.Unlock()
+	verifhook.At("join:installed", n.ID())
 
 	n.startTasks()
+	verifhook.At("join:advisory", n.ID())
 
 	n.logger.Info("Successfully joined Chord ring", zap.Object("predecessor", predecessor.Identity()), zap.Object("successor", successors[0].Identity()))
 
 	if err := predecessor.FinishJoin(true, false); err != nil { // advisory to let predecessor update successor list
 		n.logger.Warn("error sending advisory to predecessor", zap.Error(err))
 	}
+	verifhook.At("join:activate", n.ID())
 	n.state.Set(chord.Active)                                     // release local join lock
+	verifhook.At("join:release", n.ID())
 	if err := successors[0].FinishJoin(false, true); err != nil { // release successor join lock
 		n.logger.Warn("error releasing join lock in successor", zap.Error(err))
 	}
@@ -78,6 +85,7 @@ func (n *LocalNode) Join(peer chord.VNode) error {
 func (n *LocalNode) executeJoin(peer chord.VNode) (predecessor chord.VNode, successors []chord.VNode, err error) {
 	err = retry.Do(func() error {
 		var joinErr error
+		verifhook.At("join:attempt", n.ID())
 		n.logger.Info("Joining Chord ring",
 			zap.Object("via", peer.Identity()),
 		)
@@ -96,6 +104,7 @@ func (n *LocalNode) executeJoin(peer chord.VNode) (predecessor chord.VNode, succ
 }
 
 func (n *LocalNode) RequestToJoin(joiner chord.VNode) (chord.VNode, []chord.VNode, error) {
+	verifhook.At("rtj:enter", n.ID())
 	succ, err := n.FindSuccessor(joiner.ID())
 	if err != nil {
 		return nil, nil, err
@@ -113,6 +122,7 @@ func (n *LocalNode) RequestToJoin(joiner chord.VNode) (chord.VNode, []chord.VNod
 	)
 
 	n.logger.Info("Incoming join request", zap.Object("joiner", joiner.Identity()))
+	verifhook.At("rtj:lock", n.ID())
 
 	n.surrogateMu.Lock()
 	defer n.surrogateMu.Unlock()
@@ -227,6 +237,7 @@ func (n *LocalNode) Leave() {
 	)
 	err := retry.Do(func() error {
 		var leaveErr error
+		verifhook.At("leave:attempt", n.ID())
 		pre, succ, leaveErr = n.executeLeave()
 		return leaveErr
 	},
@@ -243,6 +254,7 @@ func (n *LocalNode) Leave() {
 	}
 
 	left = true
+	verifhook.At("leave:advisory", n.ID())
 
 	n.logger.Info("Sending advisory to update pointers and releasing membership locks")
 
@@ -252,7 +264,9 @@ func (n *LocalNode) Leave() {
 			n.logger.Warn("error sending advisory to predecessor", zap.Error(err))
 		}
 	}
+	verifhook.At("leave:left", n.ID())
 	n.state.Set(chord.Left) // release local leave lock
+	verifhook.At("leave:release", n.ID())
 	if succ != nil && succ.ID() != n.ID() {
 		if err := succ.FinishLeave(false, true); err != nil { // if applicable, release successor leave lock
 			n.logger.Warn("error releasing leave lock in successor", zap.Error(err))
@@ -279,6 +293,7 @@ func (n *LocalNode) executeLeave() (pre, succ chord.VNode, err error) {
 		if err = succ.RequestToLeave(n); err != nil {
 			return
 		}
+		verifhook.At("leave:lock2", n.ID())
 		if curr, ok := n.state.Transition(chord.Active, chord.Leaving); !ok {
 			n.logger.Warn("Unable to acquire local leave lock", zap.String("state", curr.String()))
 			if err := succ.FinishLeave(false, true); err != nil { // release successor lock and try again
@@ -292,6 +307,7 @@ func (n *LocalNode) executeLeave() (pre, succ chord.VNode, err error) {
 			n.logger.Warn("Unable to acquire local leave lock", zap.String("state", curr.String()))
 			return nil, nil, chord.ErrLeaveInvalidState
 		}
+		verifhook.At("leave:lock2", n.ID())
 		if err := succ.RequestToLeave(n); err != nil {
 			n.state.Set(chord.Active) // release local lock and try again
 			return nil, nil, err
@@ -299,6 +315,7 @@ func (n *LocalNode) executeLeave() (pre, succ chord.VNode, err error) {
 		n.logger.Info("Leave locks acquired (self -> succ)")
 	}
 
+	verifhook.At("leave:locked", n.ID())
 	n.surrogateMu.Lock()
 	defer n.surrogateMu.Unlock()
 
